@@ -261,6 +261,7 @@ func C01(run *report.Run) {
 	if os.Getenv("VERIF_ONLY") == "" {
 		acc := &pairAcc{}
 		bigC01(run, acc)
+		bodyLengthSweep(run, "C01", acc)
 		acc.flush(run)
 		swallowedFaultPass(run, "C01", "Insert", "Delete", "Get", "Iter")
 		fanOut(run, "C01", multiTreePlans(run.Thorough()), func(c *world.Config) explore.Monitor { return &c01Mon{cfg: c} })
